@@ -625,7 +625,12 @@ func (fr *Frame) applyContract(site ssa.Instruction, k *FuncContract, ce callee,
 				continue
 			}
 		}
-		vc.oblige("requires", nm, rq.Src, *reach, g, site.Pos(), rq.Claimed)
+		ob := vc.oblige("requires", nm, rq.Src, *reach, g, site.Pos(), rq.Claimed)
+		for _, q := range rq.Props {
+			if q == vc.prop {
+				ob.Tagged = true
+			}
+		}
 	}
 	if k.Flags["spawns"] && !fr.spawning {
 		// the callee starts its function argument on another goroutine (or refuses it):
